@@ -24,8 +24,9 @@ theorem prep_child {w : World} {ctr : Nat} {rank0 : SlabID → Nat} {O : SlabID 
       w1.cont? x = some c1 ∧ Cont.SameData c c1 ∧ e = ⟨slotSize c1 wr, .ref x⟩ ∧
       c1.isInlined = c1.inlinable (lim - 2 * wr) ∧ 1 ≤ e.size ∧ e.size ≤ lim ∧
       (∀ z, z ≠ x → w1.cont? z = w.cont? z) ∧ w1.T = w.T ∧ w1.addr = w.addr ∧ w1.hinfo = w.hinfo ∧
-      w1.mutIdx = w.mutIdx ∧ cx1.ctr = cx.ctr ∧ (∀ q, ¬ Holds w1 q x) ∧ ContsSig w w1 := by
-  obtain ⟨rank', hr', hrk⟩ := rank_insert H0.rank H0.unique hroot hanc
+      w1.mutIdx = w.mutIdx ∧ cx1.ctr = cx.ctr ∧ (∀ q, ¬ Holds w1 q x) ∧ ContsSig w w1 ∧
+      rank' p = rank0 p ∧ ∀ z, rank0 z ≤ rank' z := by
+  obtain ⟨rank', hr', hrk, hrp, hrle⟩ := rank_insert H0.rank H0.unique hroot hanc
   have H1 := H0.with_rank hr'
   obtain ⟨c1, hsd, hok1, hinl1, _, hfit1, he, he1, he2, hc1, hco1, hT1, ha1, hh1, hm1, hctr1⟩ :=
     childStorable_valid H1 hx hwb hlim hst
@@ -37,7 +38,7 @@ theorem prep_child {w : World} {ctr : Nat} {rank0 : SlabID → Nat} {O : SlabID 
     · subst hq; rw [hc1, hx]; simp [hsd.sig_eq]
     · rw [hco1 q hq]
   exact ⟨rank', c1, H1', hr', hrk, hc1, hsd, he, hinl1, he1, he2, hco1, hT1, ha1, hh1, hm1, hctr1,
-    fun q hq => hroot q ((hS.holds_iff q x).mp hq), hS⟩
+    fun q hq => hroot q ((hS.holds_iff q x).mp hq), hS, hrp, hrle⟩
 
 /-- the closure of the stored child `x` (slot `i` of the array `p`) is installed: `x` is settled -/
 theorem finish_child_arr {w3 : World} {ctr : Nat} {rank : SlabID → Nat} {O O' : SlabID → Prop}
